@@ -133,7 +133,13 @@ def call_external(I, name, args, kwargs, node, frame):
             except _re.error:
                 raise E.PyExc(VExc("error"), "re.compile")
             return VAny(_fn("re_compile", z3.StringSort(), AnySort)(args[0].t), "pattern")
+        if isinstance(args[0], VStr):
+            # whether a pattern compiles is a (deterministic) predicate of the pattern text
+            if not run.decide(_fn("re_ok", z3.StringSort(), z3.BoolSort())(args[0].t), "pattern compiles"):
+                raise E.PyExc(VExc("error"), "re.compile")
+            return VAny(_fn("re_compile", z3.StringSort(), AnySort)(args[0].t), "pattern")
         if run.choose([("ok", None), ("re.error", None)], "re.compile"):
+            run.abstractions.append("an external call failed by nondeterministic choice (its failure condition is not modelled): needs a replayed witness")
             raise E.PyExc(VExc("error"), "re.compile")
         return VAny(_fn("re_compile", z3.StringSort(), AnySort)(args[0].t), "pattern")
     if name == "re.findall":
@@ -150,12 +156,14 @@ def call_external(I, name, args, kwargs, node, frame):
         k = run.choose([("ok", None), ("SyntaxError", None), ("ValueError", None), ("RecursionError", None), ("MemoryError", None)],
                        "ast.parse")
         if k:
+            run.abstractions.append("an external call failed by nondeterministic choice (its failure condition is not modelled): needs a replayed witness")
             raise E.PyExc(VExc(["SyntaxError", "ValueError", "RecursionError", "MemoryError"][k - 1]), "ast.parse")
         return VAny(_fn("ast_parse", z3.StringSort(), AnySort)(args[0].t), "astnode")
     if name == "ast.literal_eval":
         k = run.choose([("ok", None), ("ValueError", None), ("SyntaxError", None), ("RecursionError", None), ("MemoryError", None),
                         ("TypeError", None)], "ast.literal_eval")
         if k:
+            run.abstractions.append("an external call failed by nondeterministic choice (its failure condition is not modelled): needs a replayed witness")
             raise E.PyExc(VExc(["ValueError", "SyntaxError", "RecursionError", "MemoryError", "TypeError"][k - 1]), "ast.literal_eval")
         return VAny(_fn("ast_literal_eval", z3.StringSort(), AnySort)(args[0].t), "pyvalue")
     if name.startswith("math."):
@@ -535,6 +543,7 @@ def str_method(I, s, name, args, kwargs):
     S = z3.StringSort()
     if name in ("lower", "upper", "strip", "lstrip", "rstrip", "title", "capitalize", "swapcase", "casefold"):
         if args:
+            run.externals = getattr(run, "externals", 0) + 1
             return VStr(_fn(f"str_{name}2", S, S, S)(s.t, args[0].t))
         t = E.simp(s.t)
         if z3.is_string_value(t):
@@ -542,6 +551,7 @@ def str_method(I, s, name, args, kwargs):
                 return VStr(getattr(t.as_string(), name)())
             except Exception:
                 pass
+        run.externals = getattr(run, "externals", 0) + 1      # uninterpreted in the proof: such a path is not cross-checked against CPython
         return VStr(_fn(f"str_{name}", S, S)(s.t), s.tags)
     if name == "startswith":
         a = args[0]
@@ -568,6 +578,7 @@ def str_method(I, s, name, args, kwargs):
         return VAny(_fn("encode", S, AnySort)(s.t), "bytes")
     if name == "replace":
         if len(args) == 2:
+            run.externals = getattr(run, "externals", 0) + 1
             return VStr(_fn("str_replace_all", S, S, S, S)(s.t, args[0].t, args[1].t), s.tags)
     if name == "find":
         return VInt(z3.IndexOf(s.t, args[0].t, 0))
